@@ -4,13 +4,16 @@
 set -u
 export GOFLAGS=-mod=readonly GOPROXY=off GOSUMDB=off GOTOOLCHAIN=local GOCACHE=${GOCACHE:-/verif/build/gocache}
 V=/verif
-mkdir -p $V/build $V/bin
+B=$V/${VERIF_BINDIR:-bin}
+# builds read /repo: they take a shared lock that lib/withseed.sh holds exclusively while a seeded change is applied
+mkdir -p $V/build $B
+if [ -z "${VERIF_HOLD_REPO_LOCK:-}" ]; then exec 9>$V/build/repo.lock; flock -s 9; fi
 python3 $V/lib/mkoverlay.py ${VERIF_EXTRA_OVERLAY:-} > $V/build/overlay-plain.json || exit 2
 cd /repo || exit 2
-go build -tags verif -overlay $V/build/overlay-plain.json -o $V/bin/vp ./internal/zzverif/cmd/vp 2> $V/build/build.log
+go build -tags verif -overlay $V/build/overlay-plain.json -o $B/vp ./internal/zzverif/cmd/vp 2> $V/build/build.log
 rc=$?
 if [ $rc -eq 0 ]; then
-  go build -overlay $V/build/overlay-plain.json -o $V/bin/argot ./cmd/argot 2>> $V/build/build.log
+  go build -overlay $V/build/overlay-plain.json -o $B/argot ./cmd/argot 2>> $V/build/build.log
   rc=$?
 fi
 if [ $rc -ne 0 ]; then
